@@ -258,6 +258,17 @@ var c05Kinds = []c05Kind{
 			ref.F(ref.FData, subFields(ref.F(ref.FUserLogin, obf("vic")), ref.FS(ref.FUserName, "Changed"), ref.F(ref.FUserPassword, []byte{0}), ref.F(ref.FUserAccess, make([]byte, 8)))),
 			ref.F(ref.FData, subFields(ref.F(ref.FData, obf("guest"))))}}
 	}, ""},
+	// the second entry is about the account the first one creates / removes: which privilege it needs depends on the first
+	{"batch-create-then-modify-it", []int{ref.PCreateUser, ref.PModifyUser}, func(x c05Ctx) ref.Tx {
+		return ref.Tx{Type: ref.TUpdateUser, Fields: []ref.Fld{
+			ref.F(ref.FData, subFields(ref.F(ref.FUserLogin, obf("nu")), ref.FS(ref.FUserName, "N"), ref.F(ref.FUserPassword, obf("p")), ref.F(ref.FUserAccess, make([]byte, 8)))),
+			ref.F(ref.FData, subFields(ref.F(ref.FUserLogin, obf("nu")), ref.FS(ref.FUserName, "N2"), ref.F(ref.FUserPassword, []byte{0}), ref.F(ref.FUserAccess, make([]byte, 8))))}}
+	}, ""},
+	{"batch-delete-then-recreate", []int{ref.PDeleteUser, ref.PCreateUser}, func(x c05Ctx) ref.Tx {
+		return ref.Tx{Type: ref.TUpdateUser, Fields: []ref.Fld{
+			ref.F(ref.FData, subFields(ref.F(ref.FData, obf("vic")))),
+			ref.F(ref.FData, subFields(ref.F(ref.FUserLogin, obf("vic")), ref.FS(ref.FUserName, "Again"), ref.F(ref.FUserPassword, obf("p")), ref.F(ref.FUserAccess, make([]byte, 8))))}}
+	}, ""},
 	{"batch-delete", []int{ref.PDeleteUser}, func(x c05Ctx) ref.Tx {
 		return ref.Tx{Type: ref.TUpdateUser, Fields: []ref.Fld{ref.F(ref.FData, subFields(ref.F(ref.FData, obf("vic"))))}}
 	}, ""},
